@@ -228,7 +228,7 @@ def parse_tla_value(text):
 
 
 # ---------------------------------------------------------------------------------------------- trace validation
-def _validate_shard(module, path, timeout, heap, extra_env):
+def _validate_shard(module, path, timeout, heap, extra_env, stateful=False):
     """Validate one ndjson file of cases with spec/<module>.tla.  A case on which the specification cannot be
     evaluated (TLC evaluation error) is reported as a rejection of that case and the remainder is still examined."""
     with open(path) as f:
@@ -285,6 +285,13 @@ def _validate_shard(module, path, timeout, heap, extra_env):
         rejects.append([bad.get('id', '?'), 'spec-evaluation-failed: ' + (msg.group(1).strip()[:400] if msg else 'unknown')])
         consumed += lcur
         rest = curlines[lcur:]
+        if stateful:
+            # the remainder of this history cannot be judged without its state: resume at the next history
+            k = 0
+            while k < len(rest) and json.loads(rest[k]).get('ev') != 'reset':
+                k += 1
+            consumed += k
+            rest = rest[k:]
         if not rest:
             break
         fd, cur = tempfile.mkstemp(prefix='rest.', suffix='.ndjson', dir=os.path.dirname(path))
@@ -300,7 +307,7 @@ def _validate_shard(module, path, timeout, heap, extra_env):
             'generated': generated, 'distinct': distinct, 'wall_s': wall}
 
 
-def validate_cases(module, cases, shards=16, timeout=900, heap='2g', extra_env=None, keep_dir=None):
+def validate_cases(module, cases, shards=16, timeout=900, heap='2g', extra_env=None, keep_dir=None, group=None):
     """cases: list of dicts (already restricted to ints / strings / bools / lists / dicts, see jsonsafe).
     Splits over <= shards JVMs.  Returns merged result."""
     from .jsonsafe import dumps
@@ -310,8 +317,21 @@ def validate_cases(module, cases, shards=16, timeout=900, heap='2g', extra_env=N
     try:
         k = max(1, min(shards, len(cases)))
         paths = []
+        if group:
+            # histories stay whole and in order: distribute groups, not cases
+            order, groups = [], {}
+            for c in cases:
+                g = c[group]
+                if g not in groups:
+                    groups[g] = []
+                    order.append(g)
+                groups[g].append(c)
+            k = max(1, min(shards, len(order)))
+            parts = [[c for g in order[i::k] for c in groups[g]] for i in range(k)]
+        else:
+            parts = [cases[i::k] for i in range(k)]
         for i in range(k):
-            part = cases[i::k]
+            part = parts[i]
             p = os.path.join(d, '%s.%02d.ndjson' % (module, i))
             with open(p, 'w') as f:
                 for c in part:
@@ -319,7 +339,7 @@ def validate_cases(module, cases, shards=16, timeout=900, heap='2g', extra_env=N
             paths.append(p)
         merged = {'cases': 0, 'rejects': [], 'skips': [], 'known': [], 'infos': [], 'generated': 0, 'distinct': 0, 'wall_s': 0.0}
         with cf.ThreadPoolExecutor(max_workers=k) as ex:
-            futs = [ex.submit(_validate_shard, module, p, timeout, heap, extra_env) for p in paths]
+            futs = [ex.submit(_validate_shard, module, p, timeout, heap, extra_env, bool(group)) for p in paths]
             for fu in futs:
                 r = fu.result()
                 for key in ('cases', 'generated', 'distinct'):
